@@ -107,7 +107,7 @@ theorem loop_refines (mt : Metrics) (now : Nat) :
         · simp only [ChanSrv.drain, htx, if_true]; exact hrR
       · have hsend : Chan.sendMessage mt ⟨false, 0, q, bytes q⟩ now m =
             (⟨true, now + m.tx, q, bytes q⟩,
-             [.unbusyAt (now + m.tx), ChanSrv.exitOf mt now m], .started) := by
+             [ChanSrv.exitOf mt now m, .unbusyAt (now + m.tx)], .started) := by
           simp [Chan.sendMessage, htx, Chan.duration, ChanSrv.exitOf]
         rw [hsend]
         cases fuel with
@@ -140,9 +140,11 @@ structure WR (wm : World State) (ws : World Srv) : Prop where
   started : wm.started = ws.started
   dropBusy : wm.dropBusy = ws.dropBusy
   dropFull : wm.dropFull = ws.dropFull
+  kq : wm.kq = ws.kq
+  delivered : wm.delivered = ws.delivered
 
 theorem init_WR : WR (World.init model) (World.init spec) :=
-  ⟨rfl, init_R, rfl, rfl, rfl, rfl, rfl, rfl⟩
+  ⟨rfl, init_R, rfl, rfl, rfl, rfl, rfl, rfl, rfl, rfl⟩
 
 /-- outcome of a step / run of the model against the one of the spec -/
 def Agree : Except RErr (World State) → Except RErr (World Srv) → Prop
@@ -152,24 +154,40 @@ def Agree : Except RErr (World State) → Except RErr (World Srv) → Prop
 
 theorem step_refines (mt : Metrics) {wm : World State} {ws : World Srv} (h : WR wm ws) (op : Op) :
     Agree (step model mt wm op) (step spec mt ws op) := by
-  obtain ⟨hc, hR, hp, he, ho, hs, hdb, hdf⟩ := h
+  obtain ⟨hc, hR, hp, he, ho, hs, hdb, hdf, hk, hd⟩ := h
   cases op with
   | offer t m =>
-    simp only [step, hc, hp]
+    simp only [step, hc, hp, hk]
     by_cases h1 : t < ws.clock
     · simp [h1, Agree]
     · simp only [h1, if_false]
       by_cases h2 : ws.pend.any (· < t) = true
       · simp [h2, Agree]
       · simp only [h2, Bool.false_eq_true, if_false]
+        by_cases h3 : ws.kq.any (·.time < t) = true
+        · simp [h3, Agree]
+        simp only [h3, Bool.false_eq_true, if_false]
         obtain ⟨e1, e2⟩ := offer_refines mt hR t m
         simp only [model, spec, Agree, advance]
         have e1a : (Chan.sendMessage mt wm.chan t m).2.1 = (ChanSrv.offer mt ws.chan t m).2.1 := by rw [e1]
         have e1b : (Chan.sendMessage mt wm.chan t m).2.2 = (ChanSrv.offer mt ws.chan t m).2.2 := by rw [e1]
         exact ⟨rfl, e2, by rw [e1a], by rw [he, e1a], by rw [ho], by rw [hs, e1b],
-          by rw [hdb, e1b], by rw [hdf, e1b]⟩
+          by rw [hdb, e1b], by rw [hdf, e1b], by rw [e1a], hd⟩
+  | deliver =>
+    simp only [step, hk, hc]
+    cases hkm : kmin ws.kq with
+    | none => simp [Agree]
+    | some ev =>
+      cases ev with
+      | unbusy u => simp [Agree]
+      | exit e =>
+        simp only []
+        by_cases h1 : e.time < ws.clock
+        · simp [h1, Agree]
+        · simp only [h1, if_false, Agree]
+          exact ⟨rfl, hR, hp, he, ho, hs, hdb, hdf, rfl, by show wm.delivered ++ _ = ws.delivered ++ _; rw [hd]⟩
   | unbusy =>
-    simp only [step, hp, hc]
+    simp only [step, hp, hc, hk]
     cases hpm : popMin ws.pend with
     | none => simp [Agree]
     | some ur =>
@@ -178,12 +196,15 @@ theorem step_refines (mt : Metrics) {wm : World State} {ws : World Srv} (h : WR 
       by_cases h1 : u < ws.clock
       · simp [h1, Agree]
       · simp only [h1, if_false]
+        by_cases h3 : kmin ws.kq = some (.unbusy u)
+        case neg => simp [h3, Agree]
+        simp only [h3, ne_eq, not_true_eq_false, if_false]
         obtain ⟨r, hr, hr2, hrR⟩ := unbusy_refines mt hR u
         simp only [model, spec, hr, Agree, advance]
         have e1a : r.2.1 = (ChanSrv.unbusy mt ws.chan u).2.1 := by rw [hr2]
         have e1b : r.2.2 = (ChanSrv.unbusy mt ws.chan u).2.2 := by rw [hr2]
         exact ⟨rfl, hrR, by rw [e1a], by rw [he, e1a], by rw [ho], by rw [hs, e1b],
-          by rw [hdb, e1b], by rw [hdf, e1b]⟩
+          by rw [hdb, e1b], by rw [hdf, e1b], by rw [e1a], hd⟩
 
 theorem runFrom_refines (mt : Metrics) (ops : List Op) :
     ∀ {wm : World State} {ws : World Srv}, WR wm ws →
@@ -224,14 +245,24 @@ theorem spec_step_no_chan_err (mt : Metrics) (w : World Srv) (op : Op) (e : Err)
     simp only [step]
     split
     · simp
+    · split
+      · simp
+      · split <;> simp
+  | deliver =>
+    simp only [step]
+    split
     · split <;> simp
+    · simp
+    · simp
   | unbusy =>
     simp only [step]
     split
     · simp
     · split
       · simp
-      · simp [spec]
+      · split
+        · simp
+        · simp [spec]
 
 theorem spec_runFrom_no_chan_err (mt : Metrics) (ops : List Op) :
     ∀ (w : World Srv) (e : Err), runFrom spec mt w ops ≠ .error (.chan e) := by
